@@ -1,13 +1,13 @@
-SPECIFICATION Spec
+SPECIFICATION FairSpec
 CONSTANTS
-  Kind = "mpmc"
+  Kind = "batch"
   Cap = 4
   M = 16
   MarkMod = 16
-  Prod = {1, 2}
-  Cons = {3, 4}
-  Prog <- Prog_pp1
-  StartSet = {0, 6}
+  Prod = {1}
+  Cons = {3}
+  Prog <- Prog_w_b4
+  StartSet = {0, 11, 13, 15}
   Bug = "none"
 INVARIANTS ExactlyOnce FifoLinearizable PerProducerOrder CapacityBound NoTornSlot
-
+PROPERTY Terminates
